@@ -229,7 +229,90 @@ def classify(tu, fn, body, enums, sizes):
     info.update(kind="algorithmic")
     info["body_sha"] = hashlib.sha256(repr(b).encode()).hexdigest()[:16]
     info["memset_scales"] = memset_scales(b, params, sizes)
+    info["writes_through"] = writes_through(b, params)
     return info
+
+
+def writes_through(node, params):
+    """Pointer parameters through which the function body (syntactically) stores: an
+    assignment whose target dereferences an expression derived from the parameter, a
+    memcpy/memset/str*cpy whose destination is, or a call of a `*Set*`/`*Init*`/`*Pad*`
+    function passing it.  Locals initialised or assigned from such expressions inherit the
+    derivation (flow-insensitive)."""
+    derived = {p: {p} for p, info in params.items() if info.get("pointer")}
+    pointer_locals = set()
+
+    def find_ptr_locals(n):
+        if isinstance(n, tuple):
+            if n and n[0] == "decl" and isinstance(n[2], str) and "*" in n[2]:
+                pointer_locals.add(n[1])
+            for c in n:
+                find_ptr_locals(c)
+    find_ptr_locals(node)
+
+    def roots(e):
+        out = set()
+        if isinstance(e, tuple):
+            if e and e[0] in ("param", "var") and len(e) > 1 and e[1] in derived:
+                out |= derived[e[1]]
+            for c in e:
+                if isinstance(c, tuple):
+                    out |= roots(c)
+        return out
+
+    changed = True
+    while changed:
+        changed = False
+
+        def scan(n):
+            nonlocal changed
+            if isinstance(n, tuple):
+                if n and n[0] == "decl" and n[4] is not None and isinstance(n[2], str) and "*" in n[2]:
+                    r = roots(n[4])
+                    if r - derived.get(n[1], set()):
+                        derived[n[1]] = derived.get(n[1], set()) | r
+                        changed = True
+                if n and n[0] == "bin" and n[1] == "=" and n[2][0] == "var" and n[2][1] in pointer_locals:
+                    r = roots(n[3])
+                    if r and r - derived.get(n[2][1], set()):
+                        derived[n[2][1]] = derived.get(n[2][1], set()) | r
+                        changed = True
+                for c in n:
+                    scan(c)
+        scan(node)
+    written = set()
+
+    def target_roots(lhs):
+        # only dereferencing targets count: *p, p[i], p->m
+        if lhs[0] == "un" and lhs[1] == "*":
+            return roots(lhs[2])
+        if lhs[0] == "index":
+            return roots(lhs[1])
+        if lhs[0] == "member" and lhs[2] == "->":
+            return roots(lhs[3])
+        if lhs[0] == "member":
+            return target_roots(lhs[3])
+        if lhs[0] in ("ptrcast", "icast", "cast"):
+            return target_roots(lhs[-1] if lhs[0] != "icast" else lhs[3])
+        return set()
+
+    def walk(n):
+        if isinstance(n, tuple):
+            if n and n[0] == "bin" and isinstance(n[1], str) and n[1].endswith("=") and n[1] not in ("==", "!=", "<=", ">="):
+                written.update(target_roots(n[2]))
+            if n and n[0] == "un" and n[1] in ("++", "--") :
+                written.update(target_roots(n[2]))
+            if n and n[0] == "call" and isinstance(n[1], str):
+                fn = n[1]
+                if fn in ("memcpy", "memset", "memmove", "strcpy", "strncpy") and n[2]:
+                    written.update(roots(n[2][0]))
+                elif any(k in fn for k in ("Set", "Init", "Pad", "Finalize", "Create", "Serialize")) and "Get" not in fn:
+                    for a in n[2][:1]:
+                        written.update(roots(a))
+            for c in n:
+                walk(c)
+    walk(node)
+    return sorted(written)
 
 
 def memset_scales(node, params, sizes):
